@@ -158,9 +158,12 @@ def SymChain.toLm (e : Env) (c : SymChain) : LmChain :=
 
 /-! ### literal after the leading loop -/
 
-/-- the maximal run of single-character tests at the head of the item list -/
+/-- the maximal run of single-character tests at the head of the item list.  A loop over one character test
+    contributes its minimum number of copies of the test (`[Aa]{2}` is `[Aa][Aa]`; under IgnoreCase the
+    parser coalesces `aa` into such a loop), and the run goes on behind it only when the count is exact. -/
 def predRun : List Pat → List Pred
   | .chr P :: rest => P :: predRun rest
+  | .quant _ lo hi (.chr P) :: rest => List.replicate lo P ++ (if hi = some lo then predRun rest else [])
   | _ => []
 
 /-- loop test and the character tests that follow the loop, in order (non-empty) -/
